@@ -345,8 +345,8 @@ async fn run_case(c: &Case) -> CheckResult {
                 let (dead, _) = tokio::io::duplex(16);
                 drop(std::mem::replace(&mut conns[i].io, dead));
                 lost[i] = true;
-                if tokio::time::timeout(std::time::Duration::from_secs(5), &mut conns[i].client.task).await.is_err() {
-                    return Err(Failure::new("client-hangs", format!("cache {i}: the client task did not end within 5 s of the connection loss ({kind})")).with("loss", kind));
+                if tokio::time::timeout(std::time::Duration::from_secs(30), &mut conns[i].client.task).await.is_err() {
+                    return Err(Failure::new("client-hangs", format!("cache {i}: the client task did not end within 30 s of the connection loss ({kind})")).with("loss", kind));
                 }
                 models[i].clear();
                 let left = installed_count(&tables, &conns[i].addr);
